@@ -361,15 +361,17 @@ func main() {
 	rnd := hx.NewRand(run.Seed)
 	tmpRoot := filepath.Join(run.OutDir, "ws")
 	nMem := run.N(1800, 30000)
-	nDisk := run.N(300, 4000)
+	nDisk := run.N(300, 3800) // thorough was 4000 until Family K (importkinds.go) took its seconds
 	// locked workspaces: per-module buf.lock files (v1) / one top-level buf.lock (v2), read
 	// through buffetch for root / module / parent-directory / proto-file / inside-module inputs
 	nLocked := run.N(450, 3000)
 	total := nMem + nDisk + nLocked
 	// C10_BID_ONLY=1 (development aid): run only Family B (bucketid.go)
 	bidOnly := os.Getenv("C10_BID_ONLY") == "1"
+	// C10_IK_ONLY=1 (development aid): run only Family K (importkinds.go)
+	ikOnly := os.Getenv("C10_IK_ONLY") == "1"
 	for i := 0; i < total; i++ {
-		if (run.Only >= 0 && i != run.Only) || bidOnly {
+		if (run.Only >= 0 && i != run.Only) || bidOnly || ikOnly {
 			continue
 		}
 		r := rnd.Fork(uint64(i))
@@ -388,13 +390,21 @@ func main() {
 	if run.Only < 0 || run.Only >= bidBase {
 		dgRoot := filepath.Join(run.OutDir, "dg")
 		bufBin := buildBuf(run, dgRoot)
-		if run.Only < 0 && !bidOnly {
+		if run.Only < 0 && !bidOnly && !ikOnly {
 			commitTie(run)
 			depGraphCLI(run, rnd.Fork(1<<40), dgRoot, bufBin)
 		}
 		// Family B: BucketIDs / OpaqueIDs of modules sharing a path, directories named like derived
 		// ids (bucketid.go); its own random stream, case indexes 1000000+k
-		bucketIDFamily(run, rnd.Fork(1<<41), filepath.Join(run.OutDir, "bid"), bufBin)
+		if run.Only < ikBase && !ikOnly {
+			bucketIDFamily(run, rnd.Fork(1<<41), filepath.Join(run.OutDir, "bid"), bufBin)
+		}
+		// Family K: import modifiers (plain / public / weak) as the only link between modules, in
+		// chains, mixed, on well-known types, unprovided, closing cycles (importkinds.go); its own
+		// random stream, case indexes 2000000+k
+		if (run.Only < 0 && !bidOnly) || run.Only >= ikBase {
+			importKindFamily(run, rnd.Fork(1<<42), filepath.Join(run.OutDir, "ik"), bufBin)
+		}
 		if bufBin != "" {
 			os.Remove(bufBin)
 		}
@@ -402,7 +412,13 @@ func main() {
 	os.RemoveAll(tmpRoot)
 }
 
-func oneCase(run *hx.Run, idx int, ws *wsgen.WS, dir string) {
+// keepCaseDir: oneCase leaves the directory of a disk workspace in place (the import-modifier
+// family hands it to the buf binary afterwards and removes it itself).
+var keepCaseDir = false
+
+// oneCase runs one workspace through the implementation, the protocol line and the oracle.  It
+// returns what was observed (nil when the module set could not be built) and the build error.
+func oneCase(run *hx.Run, idx int, ws *wsgen.WS, dir string) (o *observed, berr error) {
 	line := "ws\t" + ws.Line()
 	if ws.Locked {
 		line = ws.LockedLine()
@@ -423,14 +439,19 @@ func oneCase(run *hx.Run, idx int, ws *wsgen.WS, dir string) {
 		b, err = ws.BuildMem(ctx)
 	case ws.Locked:
 		b, err = ws.BuildLocked(ctx, dir)
-		defer os.RemoveAll(dir)
+		if !keepCaseDir {
+			defer os.RemoveAll(dir)
+		}
 		if b != nil && b.Close != nil {
 			defer b.Close()
 		}
 	default:
 		b, err = ws.BuildDisk(ctx, dir)
-		defer os.RemoveAll(dir)
+		if !keepCaseDir {
+			defer os.RemoveAll(dir)
+		}
 	}
+	berr = err
 	if ws.Locked {
 		run.Count("kind:" + ws.Kind + "-locked")
 		run.Count("locked-input:" + ws.Kind + ":" + ws.Input.Kind)
@@ -488,7 +509,7 @@ func oneCase(run *hx.Run, idx int, ws *wsgen.WS, dir string) {
 		run.Eval()
 		return
 	}
-	o := observe(ws, b)
+	o = observe(ws, b)
 	if o.unreportedCycle != "" {
 		fail("cycle-not-reported", fmt.Sprintf("%s lies on a cycle of the direct dependencies ModuleDeps() returned without error", o.unreportedCycle))
 	}
@@ -586,7 +607,7 @@ func oneCase(run *hx.Run, idx int, ws *wsgen.WS, dir string) {
 			got := o.depSet[oid]
 			for d := range reach {
 				if _, ok := got[d]; !ok {
-					fail("dep-missing", fmt.Sprintf("%s: reachable module %s missing from ModuleDeps", oid, d))
+					fail("dep-missing", fmt.Sprintf("%s: reachable module %s missing from ModuleDeps %v (import statements leading to it: %s)", oid, d, got, ikLinksTo(sel, d)))
 				}
 			}
 			for d, isDirect := range got {
@@ -636,13 +657,13 @@ func oneCase(run *hx.Run, idx int, ws *wsgen.WS, dir string) {
 		fail("dag-spurious-error", "ModuleSetToDAG failed with "+o.dag+" on a clean graph")
 	}
 	// ls-files vs build
-	img, berr, hung := wsgen.BuildImageWatchdog(ctx, b.ModuleSet)
+	img, imgErr, hung := wsgen.BuildImageWatchdog(ctx, b.ModuleSet)
 	if hung {
 		fail("build-hang", "bufimage.BuildImage did not return within 20s")
 		return
 	}
 	switch {
-	case o.lsOK && berr == nil:
+	case o.lsOK && imgErr == nil:
 		run.Count("ls-vs-build:both-ok")
 		got := map[string]bool{}
 		for _, f := range img.Files() {
@@ -661,12 +682,12 @@ func oneCase(run *hx.Run, idx int, ws *wsgen.WS, dir string) {
 				fail("lsfiles-missing", fmt.Sprintf("build puts %s in the image but ls-files does not list it", p))
 			}
 		}
-	case o.lsOK && berr != nil:
+	case o.lsOK && imgErr != nil:
 		run.Count("ls-vs-build:ls-ok-build-err")
-		if !ws.PlantedFileCycle && !errors.Is(berr, bufmodule.ErrNoTargetProtoFiles) {
-			fail("lsfiles-ok-build-fails", fmt.Sprintf("ls-files succeeds but build fails: %v", berr))
+		if !ws.PlantedFileCycle && !errors.Is(imgErr, bufmodule.ErrNoTargetProtoFiles) {
+			fail("lsfiles-ok-build-fails", fmt.Sprintf("ls-files succeeds but build fails: %v", imgErr))
 		}
-	case !o.lsOK && berr == nil:
+	case !o.lsOK && imgErr == nil:
 		run.Count("ls-vs-build:ls-err-build-ok")
 		if !ws.PlantedDup && !ws.PlantedNoProto && !ws.PlantedMissing {
 			fail("lsfiles-fails-build-ok", "build succeeds but ls-files fails with "+o.ls)
@@ -674,6 +695,7 @@ func oneCase(run *hx.Run, idx int, ws *wsgen.WS, dir string) {
 	default:
 		run.Count("ls-vs-build:both-err")
 	}
+	return
 }
 
 // commitTie replays DESIGN §7 row 10: several remote commits of one module with EQUAL create
